@@ -57,8 +57,16 @@ type defScn struct {
 		W       int    `json:"w"`
 		Want    int    `json:"want"`
 		M       string `json:"m"`
+		Fs      int    `json:"fs"`
+		Lh      string `json:"lh"`
+		Pc      int    `json:"pc"`
 		Want381 int    `json:"want381"`
 	} `json:"dep"`
+	Custom struct {
+		Decl  []bool `json:"decl"`
+		Order []int  `json:"order"`
+		Want  []int  `json:"want"`
+	} `json:"custom"`
 	Weight  int `json:"weight"`
 	Fs381   int `json:"fs381"`
 	Mid381  int `json:"mid381"`
@@ -242,6 +250,8 @@ func c04Main(args []string) int {
 			c04Weights(&s, line, out)
 		case "dependent":
 			c04Dependent(&s, line, out)
+		case "custom":
+			c04Custom(&s, line, out)
 		}
 	})
 }
@@ -599,6 +609,17 @@ func c04Dependent(s *defScn, line []byte, out *drv.Out) {
 		if math.Abs(got-float64(d.Want)) > 1e-6 {
 			out.Disagree("dependent:line-width:"+d.P+":"+d.St, fmt.Sprintf("%s -> computed width %g, CSS requires %d", decl, got, d.Want), map[string]interface{}{"doc": doc, "scenario": json.RawMessage(line)})
 		}
+	case "valign":
+		doc := fmt.Sprintf(`<html><head></head><body style="font-size:7px;line-height:9px"><p style="font-size:%dpx;line-height:%s;vertical-align:%d%%">x</p></body></html>`, d.Fs, d.Lh, d.Pc)
+		n, err := c04Styles(doc)
+		if err != nil {
+			out.Fatal(err.Error())
+			return
+		}
+		v := n.sf.Get(n.nodes[2], "").GetVerticalAlign()
+		if got := float64(v.Value) * 381; v.S != "" || v.Unit == pr.Perc || math.Abs(got-float64(d.Want381)) > 0.5 {
+			out.Disagree("dependent:vertical-align-percentage:"+d.Lh, fmt.Sprintf("%s -> computed vertical-align %v%s (unit %v), CSS 2.1 10.8.1 requires %gpx", doc, v.Value, v.S, v.Unit, float64(d.Want381)/381), map[string]interface{}{"doc": doc, "scenario": json.RawMessage(line)})
+		}
 	case "bleed":
 		doc := `<html><head><style>@page{marks:` + d.M + `;bleed:auto}</style></head><body><p>x</p></body></html>`
 		h, sf, err := drv.Styles(doc, &drv.Opts{UACSS: "zz{}"})
@@ -686,6 +707,58 @@ func c04AfterBoxes(out *drv.Out) {
 				out.Disagree("after-boxes:inherit-through:"+disp, fmt.Sprintf("body{display:%s;%s:%s} p{%s:inherit}: the box of p holds %s, the value computed for body is %s", disp, name, exp, name, got, want),
 					map[string]interface{}{"doc": doc, "property": name})
 			}
+		}
+	}
+}
+
+// c04Custom: custom properties are inherited properties: a declaration is visible on its element and its descendants only,
+// whatever the order in which the styles are computed. Tree: body > p#2 > span#4, body > p#3; node k declares --x: vk.
+func c04Custom(s *defScn, line []byte, out *drv.Out) {
+	c := s.Custom
+	if len(c.Decl) != 4 || len(c.Order) != 4 || len(c.Want) != 4 {
+		out.Fatal("bad custom scenario")
+		return
+	}
+	d := func(k int) string {
+		st := "font-family:var(--x, fb)"
+		if c.Decl[k-1] {
+			st = fmt.Sprintf("--x:v%d;", k) + st
+		}
+		return st
+	}
+	doc := fmt.Sprintf(`<html><head></head><body id="n1" style="%s"><p id="n2" style="%s"><span id="n4" style="%s">a</span></p><p id="n3" style="%s">b</p></body></html>`, d(1), d(2), d(4), d(3))
+	h, sf, err := drv.Styles(doc, &drv.Opts{UACSS: "zz{}"})
+	if err != nil {
+		out.Fatal(err.Error())
+		return
+	}
+	out.Count("custom")
+	nodes := map[int]*utils.HTMLNode{}
+	it := h.Root.Iter()
+	for it.HasNext() {
+		e := it.Next()
+		var k int
+		if _, err := fmt.Sscanf(e.Get("id"), "n%d", &k); err == nil {
+			nodes[k] = e
+		}
+	}
+	got := map[int]string{}
+	for _, k := range c.Order {
+		st := sf.Get(nodes[k], "")
+		if st == nil {
+			out.Fatal("no style")
+			return
+		}
+		got[k] = strings.Join(st.GetFontFamily(), ",")
+	}
+	for k := 1; k <= 4; k++ {
+		want := "fb"
+		if c.Want[k-1] != 0 {
+			want = fmt.Sprintf("v%d", c.Want[k-1])
+		}
+		if got[k] != want {
+			out.Disagree("custom-property-scope", fmt.Sprintf("%s (styles asked in the order %v): node %d sees --x = %q, CSS Variables requires %q", doc, c.Order, k, got[k], want), map[string]interface{}{"doc": doc, "scenario": json.RawMessage(line)})
+			return
 		}
 	}
 }
